@@ -59,7 +59,19 @@ DEST, PART, OTHER = "data.bin", "data.bin.part", "other.txt"
 CUSTOM_PART = "tmp-part"
 TMP_ROOT = "/dev/shm" if os.path.isdir("/dev/shm") and os.access("/dev/shm", os.W_OK) else None
 
-ENOENT, EEXIST, EIO, ENOSPC, EPERM, EINVAL = 2, 17, 5, 28, 1, 22
+ENOENT, EEXIST, EIO, ENOSPC, EPERM, EINVAL, EXDEV, EACCES = 2, 17, 5, 28, 1, 22, 18, 13
+
+
+import builtins as _builtins
+import io as _io
+import types as _types
+
+# the real functions, captured before anything is patched: the recorder and the harness's own code in the child
+# use these; everything else in the child process goes through the guard installed by install_guard()
+_O = _types.SimpleNamespace(open=os.open, unlink=os.unlink, remove=os.remove, rename=os.rename, replace=os.replace,
+                            link=os.link, chmod=os.chmod, fchmod=os.fchmod, fsync=os.fsync, fdatasync=os.fdatasync,
+                            fdopen=os.fdopen, close=os.close, truncate=os.truncate, symlink=os.symlink,
+                            bopen=_builtins.open)
 
 
 class BodyError(Exception):
@@ -79,6 +91,11 @@ def data_of(op):
     if isinstance(d, dict):
         return d["rep"] * d["n"]
     return d
+
+
+def retry_body(case):
+    """The retry is a well-behaved save of the same content: without the body's misuse of the file object."""
+    return [op for op in case["body"] if op[0] != "c"]
 
 
 def part_name(cfg):
@@ -130,6 +147,8 @@ class Ctx:
         self.appeared = False
         self.fd = None
         self.slow = 0.0
+        self.foreign_opens = 0            # files in the scenario's directory opened for writing behind the recorder's back
+        self.crash_after_foreign = None   # die right after the j-th such open returned
 
     def tok(self, path):
         ap = os.path.abspath(os.fspath(path))
@@ -145,7 +164,7 @@ class Ctx:
         return self.outside[ap]
 
     def dump(self, payload):
-        payload = dict(payload, trace=self.trace, appeared=self.appeared)
+        payload = dict(payload, trace=self.trace, appeared=self.appeared, foreign_opens=self.foreign_opens)
         data = json.dumps(payload).encode()
         off = 0
         while off < len(data):
@@ -166,9 +185,9 @@ class Ctx:
             if s[1] == "appear":
                 dest = os.path.join(self.tmpdir, DEST)
                 if not os.path.lexists(dest):
-                    with open(dest, "wb") as f:
+                    with _O.bopen(dest, "wb") as f:
                         f.write(s[2].encode("utf-8"))
-                    os.chmod(dest, s[3])
+                    _O.chmod(dest, s[3])
                     self.appeared = True
             elif s[1] == "fault":
                 fault = s[2]
@@ -186,9 +205,10 @@ class Ctx:
             self.trace.append(ev + [e.errno if e.errno is not None else 999])
             raise
         except ValueError:
-            if ev[0] != "fdopen":
-                raise
-            self.trace.append(ev + [EINVAL])
+            if ev[0] == "fdopen":
+                self.trace.append(ev + [EINVAL])
+            elif ev[0] in ("write", "flush", "close"):
+                self.trace.append(ev + [9])          # "I/O operation on closed file": EBADF in the model
             raise
         if post:
             ev = post(ev)
@@ -282,12 +302,12 @@ class Rec:
     def open(self, path, flags, mode=0o777, **kw):
         c = self._ctx
         if not flags & (os.O_WRONLY | os.O_RDWR | os.O_CREAT | os.O_TRUNC | os.O_APPEND):
-            return os.open(path, flags, mode, **kw)      # read-only open (e.g. of the directory): not an event
+            return _O.open(path, flags, mode, **kw)      # read-only open (e.g. of the directory): not an event
         excl = bool(flags & os.O_EXCL) and bool(flags & os.O_CREAT)
         trunc = bool(flags & os.O_TRUNC)
 
         def do():
-            fd = os.open(path, flags, mode, **kw)
+            fd = _O.open(path, flags, mode, **kw)
             c.fd = fd
             return fd
         return c.event(["open", c.tok(path), excl and not trunc, mode], do)
@@ -297,45 +317,117 @@ class Rec:
 
         def on_fault():
             try:
-                os.close(fd)      # io.open closes the descriptor when it fails
+                _O.close(fd)      # io.open closes the descriptor when it fails
             except OSError:
                 pass
-        f = c.event(["fdopen"], lambda: os.fdopen(fd, *a, **kw), on_fault=on_fault)
+        f = c.event(["fdopen"], lambda: _O.fdopen(fd, *a, **kw), on_fault=on_fault)
         return FileProxy(c, f, fd)
 
     def chmod(self, path, mode, **kw):
         c = self._ctx
-        return c.event(["chmod", c.tok(path), mode], lambda: os.chmod(path, mode, **kw))
+        return c.event(["chmod", c.tok(path), mode], lambda: _O.chmod(path, mode, **kw))
 
     def fchmod(self, fd, mode):
         c = self._ctx
-        return c.event(["chmod", 1 if fd == c.fd else 999, mode], lambda: os.fchmod(fd, mode))
+        return c.event(["chmod", 1 if fd == c.fd else 999, mode], lambda: _O.fchmod(fd, mode))
 
     def unlink(self, path, **kw):
         c = self._ctx
-        return c.event(["unlink", c.tok(path)], lambda: os.unlink(path, **kw))
+        return c.event(["unlink", c.tok(path)], lambda: _O.unlink(path, **kw))
 
     remove = unlink
 
     def rename(self, src, dst, **kw):
         c = self._ctx
-        return c.event(["rename", c.tok(src), c.tok(dst)], lambda: os.rename(src, dst, **kw))
+        return c.event(["rename", c.tok(src), c.tok(dst)], lambda: _O.rename(src, dst, **kw))
 
     replace = rename
 
     def link(self, src, dst, **kw):
         c = self._ctx
-        return c.event(["link", c.tok(src), c.tok(dst)], lambda: os.link(src, dst, **kw))
+        return c.event(["link", c.tok(src), c.tok(dst)], lambda: _O.link(src, dst, **kw))
 
     def fsync(self, fd):
         if fd != self._ctx.fd:
-            return os.fsync(fd)                           # syncing something else (the directory): not an event
-        return self._ctx.event(["fsync"], lambda: os.fsync(fd))
+            return _O.fsync(fd)                           # syncing something else (the directory): not an event
+        return self._ctx.event(["fsync"], lambda: _O.fsync(fd))
 
     def fdatasync(self, fd):
         if fd != self._ctx.fd:
-            return os.fdatasync(fd)
-        return self._ctx.event(["fsync"], lambda: os.fdatasync(fd))
+            return _O.fdatasync(fd)
+        return self._ctx.event(["fsync"], lambda: _O.fdatasync(fd))
+
+
+# ---------------------------------------------------------------------------
+# process-wide guard (child only): whatever touches the scenario's directory WITHOUT going through
+# fileutils.os - shutil, builtins.open, another module's `os` - is recorded as the same kind of event, so
+# that the trace predicates see it ("no primitive other than the publication ever touches the destination")
+# and the process can be killed right after such an open.
+# ---------------------------------------------------------------------------
+def install_guard(ctx, rec):
+    root = os.path.realpath(ctx.tmpdir)
+
+    def inside(path):
+        try:
+            if isinstance(path, int):
+                return False
+            ap = os.path.abspath(os.fspath(path))
+            if isinstance(ap, bytes):
+                ap = os.fsdecode(ap)
+            return os.path.realpath(os.path.dirname(ap)).startswith(root)
+        except Exception:
+            return False
+
+    def after_foreign_open():
+        j = ctx.foreign_opens
+        ctx.foreign_opens = j + 1
+        if ctx.crash_after_foreign is not None and ctx.crash_after_foreign == j:
+            ctx.dump({"killed_after_foreign": j})
+            os._exit(0)
+
+    def g_bopen(file, mode="r", *a, **kw):
+        if inside(file) and any(ch in mode for ch in "wax+"):
+            f = ctx.event(["open", ctx.tok(file), "x" in mode, 0o666], lambda: _O.bopen(file, mode, *a, **kw))
+            after_foreign_open()
+            return f
+        return _O.bopen(file, mode, *a, **kw)
+
+    def g_open(path, flags, mode=0o777, **kw):
+        if inside(path) and flags & (os.O_WRONLY | os.O_RDWR | os.O_CREAT | os.O_TRUNC | os.O_APPEND):
+            fd = rec.open(path, flags, mode, **kw)
+            after_foreign_open()
+            return fd
+        return _O.open(path, flags, mode, **kw)
+
+    def two(name):
+        def g(src, dst, **kw):
+            if inside(src) or inside(dst):
+                return getattr(rec, name)(src, dst, **kw)
+            return getattr(_O, name)(src, dst, **kw)
+        return g
+
+    def one(name):
+        def g(path, *a, **kw):
+            if inside(path):
+                return getattr(rec, name)(path, *a, **kw)
+            return getattr(_O, name)(path, *a, **kw)
+        return g
+
+    def g_truncate(path, length):
+        if inside(path):
+            return ctx.event(["chmod", ctx.tok(path), 0], lambda: _O.truncate(path, length))   # rendered as a touch of that name
+        return _O.truncate(path, length)
+
+    _builtins.open = g_bopen
+    _io.open = g_bopen
+    os.open = g_open
+    os.rename = two("rename")
+    os.replace = two("replace")
+    os.link = two("link")
+    os.unlink = one("unlink")
+    os.remove = one("remove")
+    os.chmod = one("chmod")
+    os.truncate = g_truncate
 
 
 # ---------------------------------------------------------------------------
@@ -364,6 +456,8 @@ def _drive(fu, cfg, ctx, tmpdir, body, body_exc):
                 f.flush()
             elif op[0] == "r":
                 f.seek(0)        # rewind after writing (only generated as the last operation of a body)
+            elif op[0] == "c":
+                f.close()        # the body closes the file object it was given (misuse)
             elif op[0] == "cd":
                 os.chdir(os.path.join(tmpdir, SUB))     # the program changes its working directory inside the with-block
         ctx.body_idx = None
@@ -395,7 +489,8 @@ def _drive(fu, cfg, ctx, tmpdir, body, body_exc):
     except OSError as e:
         return ["os", e.errno if e.errno is not None else 999]
     except ValueError:
-        if fdopen_invalid(cfg) or any(s[1] == "fault" and s[2] == EINVAL for ss in ctx.sched.values() for s in ss):
+        if (fdopen_invalid(cfg) or any(op[0] == "c" for op in body)
+                or any(s[1] == "fault" and s[2] == EINVAL for ss in ctx.sched.values() for s in ss)):
             return ["value"]
         raise
 
@@ -454,7 +549,7 @@ def scan(tmpdir, names):
     return out
 
 
-def run_child(tmpdir, cfg, umask, body, body_exc, sched, crash, slow=0.0, kill_after=None):
+def run_child(tmpdir, cfg, umask, body, body_exc, sched, crash, slow=0.0, kill_after=None, crash_after_foreign=None):
     """Fork; the child runs the save with the recorder installed and reports
     through a pipe.  Returns the child's report (dict).  With kill_after the
     parent SIGKILLs the child after that many seconds (the child pauses `slow`
@@ -469,9 +564,12 @@ def run_child(tmpdir, cfg, umask, body, body_exc, sched, crash, slow=0.0, kill_a
             os.umask(umask)
             ctx = Ctx(tmpdir, _names(cfg), crash, sched, wfd)
             ctx.slow = slow
+            ctx.crash_after_foreign = crash_after_foreign
             try:
                 import boltons.fileutils as fu
-                fu.os = Rec(ctx)
+                rec = Rec(ctx)
+                fu.os = rec
+                install_guard(ctx, rec)
                 os.write(wfd, b"R")            # ready: the save starts now (lets the parent time a SIGKILL)
                 outcome = _drive(fu, cfg, ctx, tmpdir, body, body_exc)
                 ctx.dump({"outcome": outcome})
@@ -517,7 +615,7 @@ def fresh_dir():
     return tempfile.mkdtemp(prefix="c04_", dir=TMP_ROOT)
 
 
-def run_once(case, crash=None, keep=False):
+def run_once(case, crash=None, keep=False, crash_after_foreign=None):
     """Populate a fresh directory, run (optionally killed at event `crash`),
     scan.  Returns (report, files, tmpdir-or-None)."""
     cfg = case["cfg"]
@@ -525,7 +623,7 @@ def run_once(case, crash=None, keep=False):
     try:
         _populate(tmpdir, cfg, case["init"])
         rep = run_child(tmpdir, cfg, case.get("umask", 0o022), case["body"], case.get("body_exc", False),
-                        case.get("sched", []), crash)
+                        case.get("sched", []), crash, crash_after_foreign=crash_after_foreign)
         files = scan(tmpdir, _names(cfg))
         if keep:
             return rep, files, tmpdir
@@ -542,7 +640,7 @@ def run_impl(case):
         obs = {"run": {"trace": rep["trace"], "outcome": rep["outcome"], "files": files,
                        "intruded": bool(rep.get("appeared"))}, "crashes": [], "retry": None}
         if case.get("retry"):
-            rep2 = run_child(tmpdir, cfg, case.get("umask", 0o022), case["body"], False, [], None)
+            rep2 = run_child(tmpdir, cfg, case.get("umask", 0o022), retry_body(case), False, [], None)
             obs["retry"] = {"trace": rep2["trace"], "outcome": rep2["outcome"], "files": scan(tmpdir, _names(cfg))}
     finally:
         shutil.rmtree(tmpdir, ignore_errors=True)
@@ -559,10 +657,15 @@ def run_impl(case):
             raise RuntimeError("non-deterministic run: crash run %d diverges from the full run: %r vs %r"
                                % (k, repk, rep["trace"][:k]))
         obs["crashes"].append([k, filesk])
+    # the code opened files of the scenario's directory for writing behind the recorder's back (shutil, builtins.open):
+    # kill it right after each such open and look at the directory (judged like a kill at an arbitrary instant)
+    obs["asyncs"] = []
+    for j in range(rep.get("foreign_opens", 0)):
+        _, filesj, _ = run_once(case, crash_after_foreign=j)
+        obs["asyncs"].append(filesj)
     if case.get("strace"):
         obs["strace"] = strace_check(case)        # raises on a mismatch (fail closed)
     # SIGKILL at arbitrary instants (fractions of the slowed-down run's duration)
-    obs["asyncs"] = []
     for frac in case.get("async", []):
         slow = 0.002
         tmpdir = fresh_dir()
@@ -768,7 +871,7 @@ def c_init(case, tb):
     return clist(out)
 
 
-def c_body(case, trace, tb):
+def c_body(case, trace, tb, body=None):
     """Body ops with the measured disk size after each write (the buffering
     oracle): taken from the write event tagged with the body index."""
     disk = {}
@@ -778,9 +881,13 @@ def c_body(case, trace, tb):
     ops = []
     tb.disk_fill = {}
     vl = bl = 0          # bytes in the kernel / still buffered, to give never-executed writes an in-range value
-    for j, op in enumerate(case["body"]):
+    for j, op in enumerate(case["body"] if body is None else body):
         if op[0] == "cd":
             continue             # changing the working directory is an action of the environment: no file-system effect
+        if op[0] == "c":
+            ops.append("BClose")
+            vl, bl = vl + bl, 0
+            continue
         if op[0] == "w":
             n = len(utf8(data_of(op)))
             k = disk.get(j)
@@ -938,6 +1045,37 @@ def gen_body_plain(rng, tier, style):
     return [["w", {"rep": "0123456789abcdef", "n": 300}], ["w", "tail"], ["w", {"rep": "Z", "n": rng.choice([3000, 5000])}]]
 
 
+_SPECIAL = None
+
+
+def special_bits_ok():
+    """Can this user give a file setuid/setgid/sticky bits that survive chmod + write + rename? (probe, cached)"""
+    global _SPECIAL
+    if _SPECIAL is None:
+        d = tempfile.mkdtemp(prefix="c04probe_", dir=TMP_ROOT)
+        try:
+            p = os.path.join(d, "x")
+            fd = os.open(p, os.O_RDWR | os.O_CREAT | os.O_EXCL, 0o644)
+            os.chmod(p, 0o7755)
+            os.write(fd, b"abc")
+            os.fsync(fd)
+            os.close(fd)
+            os.rename(p, p + "2")
+            _SPECIAL = _stat.S_IMODE(os.stat(p + "2").st_mode) == 0o7755
+        except OSError:
+            _SPECIAL = False
+        finally:
+            shutil.rmtree(d, ignore_errors=True)
+    return _SPECIAL
+
+
+def dest_modes():
+    modes = [0o644, 0o600, 0o664, 0o755, 0o640]
+    if special_bits_ok():
+        modes += [0o4755, 0o2644, 0o1644, 0o6750, 0o7700]      # setuid / setgid / sticky: all 12 bits of S_IMODE
+    return modes
+
+
 def gen_cfg(rng):
     text = rng.random() < 0.4
     body_big = False
@@ -946,7 +1084,7 @@ def gen_cfg(rng):
         "overwrite": rng.random() < 0.7,
         "overwrite_part": rng.random() < 0.4,
         "rm_part_on_exc": rng.random() < 0.7,
-        "file_perms": rng.choice([None, None, 0o600, 0o644, 0o640, 0o444 | 0o200]),
+        "file_perms": rng.choice([None, None, 0o600, 0o644, 0o640, 0o444 | 0o200] + ([0o2640] if special_bits_ok() else [])),
         "text_mode": text,
         "buffering": buffering,
         "part_file": rng.choice([None, None, "custom"]),
@@ -961,7 +1099,7 @@ def gen_init(rng, cfg, want_dest=None, want_part=None):
     init = {}
     has_dest = rng.random() < 0.6 if want_dest is None else want_dest
     if has_dest:
-        init["dest"] = [rng.choice(["OLD", "old content\n", "", "previous édition"]), rng.choice([0o644, 0o600, 0o664, 0o755, 0o640])]
+        init["dest"] = [rng.choice(["OLD", "old content\n", "", "previous édition"]), rng.choice(dest_modes())]
     has_part = rng.random() < 0.15 if want_part is None else want_part
     if has_part:
         if has_dest and rng.random() < 0.35:
@@ -1008,6 +1146,29 @@ def grid_cases():
                                            "sched": [], "crash": "all", "retry": False, "grid": True}
 
 
+def misuse(rng, body):
+    """The body closes the file object it was given, somewhere (then any later write raises ValueError, and so
+    does the flush in __exit__)."""
+    body = [op for op in body if op[0] != "r"]
+    body.insert(rng.randint(0, len(body)), ["c"])
+    return body
+
+
+def publish_index(case):
+    """Index of the event that publishes (rename, or link) when nothing fails before."""
+    cfg, init = case["cfg"], case["init"]
+    k = 2                                             # open, fdopen
+    if cfg["overwrite_part"] and init.get("part") is not None:
+        k += 1                                        # unlink of the stale part file
+    if cfg["file_perms"] is not None or init.get("dest") is not None:
+        k += 1                                        # chmod
+    k += len([op for op in case["body"] if op[0] in ("w", "f", "r", "c")])
+    return k + 3                                      # flush, fsync, close
+
+
+PUBLISH_ERRNOS = [EXDEV, EPERM, EIO, EACCES, ENOSPC, 30]     # 30 = EROFS
+
+
 def generate(rng, tier, n):
     i = 0
     if tier == "thorough":
@@ -1033,11 +1194,19 @@ def generate(rng, tier, n):
         if init.get("sub"):
             body = list(body)
             body.insert(rng.randint(0, max(0, len(body) - (1 if body and body[-1][0] == "r" else 0))), ["cd"])
+        if rng.random() < 0.06:
+            body = misuse(rng, body)
         case = {"cfg": cfg, "umask": rng.choice([0o022, 0o022, 0o077, 0, 0o027]), "init": init, "body": body,
                 "body_exc": rng.random() < 0.12, "sched": [], "crash": "all", "retry": False}
-        if rng.random() < 0.12:
+        r2 = rng.random()
+        if r2 < 0.12:
             # crash sweep over a run that also suffers a fault
             case["sched"] = [[rng.randint(0, 9), "fault", rng.choice([EIO, ENOSPC, EPERM])]]
+        elif r2 < 0.24 and not case["body_exc"]:
+            # the PUBLISHING step itself fails (cross-device, permission, ...): every crash point of whatever the
+            # code does next
+            k = publish_index(case) + (1 if (not cfg["overwrite"] and rng.random() < 0.4) else 0)
+            case["sched"] = [[k, "fault", rng.choice(PUBLISH_ERRNOS)]]
         if big_budget:
             case["crash"] = sorted(set(rng.sample(range(0, 12), 5)))
         elif not case["sched"] and not init.get("sub") and i % 100 in (11, 57):
@@ -1100,6 +1269,8 @@ def distribution(d, case, obs):
     bump("init", "dest=%d part=%d%s" % ("dest" in case["init"], "part" in case["init"],
                                         " (hard link)" if is_partlink(case["init"]) else ""))
     bump("writes", str(min(len([o for o in case["body"] if o[0] == "w"]), 6)))
+    if any(o[0] == "c" for o in case["body"]):
+        d["body_closes_its_file"] = d.get("body_closes_its_file", 0) + 1
     if any(o[0] == "cd" for o in case["body"]):
         bump("chdir_in_body", cfg.get("path", "abs") + (" +decoy" if case["init"].get("decoy") else ""))
     d["kills"] = d.get("kills", 0) + len([1 for k, _ in obs["crashes"] if k < len(obs["run"]["trace"])])
